@@ -17,7 +17,8 @@ FUNCTIONS = ['jesse.models.Position.Position.liquidation_price', 'jesse.models.P
              'jesse.models.Position.Position.type', 'jesse.models.Position.Position.is_open',
              'jesse.models.Position.Position.leverage', 'jesse.modes.backtest_mode._check_for_liquidations',
              'jesse.helpers.estimate_PNL', 'jesse.helpers.closing_side', 'jesse.helpers.prepare_qty',
-             'jesse.services.candle.candle_includes_price']
+             'jesse.services.candle.candle_includes_price', 'jesse.models.Position.Position._on_executed_order',
+             'jesse.modes.backtest_mode._simulate_price_change_effect', 'jesse.modes.backtest_mode._simulate_price_change_effect_multiple_candles']
 ASSUMPTIONS = [
     'A-1 floats are mathematical reals (+ NaN flag)', 'A-6 backtest mode (is_livetrading() == False)',
     'A-7 Order(...) is a record of the attribute dict it is given',
@@ -57,6 +58,93 @@ def t_formulas(side, mode):
             h.prove(liq is NAN, f'formulas.{mode}.never-liquidates')
         pnl = h.call('jesse.helpers.estimate_PNL', ops.absval(q), e, bankr, h.attr(p, 'type'))
         h.prove(h.ev(K.LOSS, pnl=pnl, **env), f'formulas.{side}.loses-initial-margin-at-bankruptcy', {'clause': K.LOSS})
+    return t
+
+
+def t_after_fill(side):
+    """liquidation / bankruptcy price follow the position through fills (averaged entries, reductions, flips): read them,
+    apply an arbitrary fill through the real Position._on_executed_order, read them again - they are the formulas of the NEW
+    entry price.  (Catches memoised prices that are not invalidated by some mutating operation.)"""
+    def t(h):
+        w = common.futures_world(h, mode='isolated')
+        p = w.positions['BTC-USDT']
+        Q, E, _ = common.open_position(h, p, side)
+        h.attr(p, 'liquidation_price')
+        h.attr(p, 'bankruptcy_price')
+        q, px = h.real('q'), h.real('p')
+        h.assume(ops.lnot(ops.equal(q, 0)))
+        h.assume(ops.compare('>', px, 0))
+        ro = h.bool('reduce_only')
+        h.assume(ops.implies(ro, ops.compare('<', ops.arith('*', q, Q), 0)))
+        o = common.mk_order(h, side='buy', type='LIMIT', qty=q, price=px, symbol='BTC-USDT', exchange='Sandbox', reduce_only=ro,
+                            status='EXECUTED', id='o1')
+        if h.branch(ops.compare('<', q, 0)):
+            o.f['side'] = 'sell'
+        h.cover('after-fill.pre')
+        out = h.method_outcome(p, '_on_executed_order', o)
+        h.prove(out.ok, 'after-fill.no-exception', {'raised': out.exc})
+        if not out.ok:
+            return
+        q2 = p.f['qty']
+        if h.branch(ops.equal(q2, 0)):
+            h.prove(h.attr(p, 'liquidation_price') is NAN, 'after-fill.closed-position-has-no-liq-price')
+            return
+        now = 'long' if h.branch(ops.compare('>', q2, 0)) else 'short'
+        liq = h.attr(p, 'liquidation_price')
+        bankr = h.attr(p, 'bankruptcy_price')
+        env = dict(liq=liq, bankr=bankr, entry=p.f['entry_price'], qty=q2, L=w.L)
+        h.prove(h.ev(K.LIQ_FORMULA[now], **env), 'after-fill.liq-price-follows-the-current-entry-price', {'clause': K.LIQ_FORMULA[now]})
+        h.prove(h.ev(K.BANKR_FORMULA[now], **env), 'after-fill.bankruptcy-price-follows-the-current-entry-price',
+                {'clause': K.BANKR_FORMULA[now]})
+    return t
+
+
+def t_call_site(kind):
+    """the simulator hands the WHOLE minute (step) resp. the aggregated chunk (fast mode) to _check_for_liquidations, after
+    the resting orders were matched - not the part of the candle left over by a fill, not the last minute of the chunk"""
+    def t(h):
+        from props import C02 as P2
+        W = P2.match_world(h, 1, allow_new=False)
+        BM = 'jesse.modes.backtest_mode'
+        if kind == 'step':
+            c = h.vec('c', 6)
+            P2.valid_candle(h, c)
+            h.cover('call-site.pre')
+            out = h.outcome(f'{BM}._simulate_price_change_effect', c, 'Sandbox', 'BTC-USDT')
+            h.prove(out.ok, 'call-site.step.no-exception', {'raised': out.exc})
+            if not out.ok:
+                return
+            liqs = [e for e in W.ev if e[0] == 'liquidations']
+            h.prove(len(liqs) == 1 and W.ev[-1][0] == 'liquidations', 'call-site.step.checked-once-after-matching')
+            if liqs:
+                got = liqs[0][1][0]
+                same = isinstance(got, Vec) and all(ops.equal(a, b) is True for a, b in zip(got.e, c.e))
+                h.prove(got is c or same, 'call-site.step.check-receives-the-whole-minute')
+        else:
+            rows = []
+            for j in range(3):
+                v = h.vec(f'm{j}_', 6)
+                P2.valid_candle(h, v)
+                rows.append(v)
+            from pyvc.values import Arr
+            chunk = Arr(3, (lambda k, rows=rows: ops.pick(rows, k)), np=True, cols=6)
+            h.cover('call-site.pre')
+            out = h.outcome(f'{BM}._simulate_price_change_effect_multiple_candles', chunk, 'Sandbox', 'BTC-USDT')
+            h.prove(out.ok, 'call-site.chunk.no-exception', {'raised': out.exc})
+            if not out.ok:
+                return
+            liqs = [e for e in W.ev if e[0] == 'liquidations']
+            h.prove(len(liqs) == 1 and W.ev[-1][0] == 'liquidations', 'call-site.chunk.checked-once-after-matching')
+            if liqs:
+                got = liqs[0][1][0]
+                hi = rows[0].e[3]
+                lo = rows[0].e[4]
+                for r_ in rows[1:]:
+                    hi = ops.vmax(hi, r_.e[3])
+                    lo = ops.vmin(lo, r_.e[4])
+                ok = isinstance(got, Vec) and len(got.e) == 6
+                h.prove(ok and ops.land(ops.equal(got.e[3], hi), ops.equal(got.e[4], lo)),
+                        'call-site.chunk.check-receives-the-range-of-the-whole-chunk')
     return t
 
 
@@ -132,6 +220,12 @@ def tasks(tier):
         for mode in ('isolated', 'cross'):
             ts.append(Task(f'formulas.{side}.{mode}', t_formulas(side, mode), extra=x, overrides=dict(ov)))
             ts.append(Task(f'check.{side}.{mode}', t_check(side, mode, True), extra=x, overrides=dict(ov)))
+        ts.append(Task(f'after-fill.{side}', t_after_fill(side), extra=x, overrides=dict(ov)))
+    import props.C02 as P2
+    x2 = dict(x, spec_mod=P2.SPEC)
+    ts.append(Task('call-site.step', t_call_site('step'), extra=dict(x2, bounded='one resting order'), overrides=dict(ov), max_paths=20000))
+    ts.append(Task('call-site.chunk', t_call_site('chunk'), extra=dict(x2, bounded='chunk of 3 minutes, one resting order'), overrides=dict(ov),
+                   max_paths=50000))
     ts.append(Task('check.closed.isolated', t_check('long', 'isolated', False), extra=x, overrides=dict(ov)))
     ts.append(Task('formulas.closed', t_closed, extra=x, overrides=dict(ov)))
     ts.append(Task('formulas.spot', t_spot, extra=x, overrides=dict(ov)))
